@@ -54,10 +54,17 @@ package stack
 //@   modifies everything()
 
 // C06/C11 at the hand-over from transport to network layer: a UDP datagram is handed down with
-// a length field that equals the bytes it carries (header in hdr, payload in payload).
+// a length field that equals the bytes it carries (header in hdr, payload in payload); a TCP
+// segment with a data offset equal to the header bytes handed down. Emission of TCP segments
+// is recorded in ghost state here (count, and flags/seq/ack of the last one as found in the
+// header bytes), which the TCP contracts (C03) refer to.
 //@ func (*Route).WritePacket props C07 C06 C11
 //@   trusted
 //@   requires implies(protocol == header.UDPProtocolNumber, len(hdr.buf) - hdr.usedIdx >= 8 && int(be16(hdr.buf, hdr.usedIdx + 4)) == len(hdr.buf) - hdr.usedIdx + payload.size)
+//@   requires implies(protocol == header.TCPProtocolNumber, len(hdr.buf) - hdr.usedIdx >= 20 && int(hdr.buf[hdr.usedIdx + 12] >> 4) * 4 == len(hdr.buf) - hdr.usedIdx)
+//@   ensures implies(protocol == header.TCPProtocolNumber, ghost(tcpSegs) == old(ghost(tcpSegs)) + 1
+//@             && ghost(lastTCPFlags) == int(old(hdr.buf[hdr.usedIdx + 13])) && ghost(lastTCPSeq) == int(be32(old(hdr.buf), hdr.usedIdx + 4)) && ghost(lastTCPAck) == int(be32(old(hdr.buf), hdr.usedIdx + 8)))
+//@   ensures implies(protocol != header.TCPProtocolNumber, ghost(tcpSegs) == old(ghost(tcpSegs)))
 //@   modifies everything()
 
 // C06 at the hand-over from network to link layer: an IPv4 packet is handed down with a total
